@@ -597,6 +597,9 @@ pub fn plan_for(property: &str, seed: u64) -> Plan {
         "C05" => {
             // the wire-conformance monitor rides on the other families' traffic
             let mut plan = match seed % 4 {
+                // byzantine transport-parameter blocks (rule catalogue of C14): the reference
+                // parser and the real decoder meet on blocks no encoder of ours emits
+                _ if seed % 8 == 7 => plan_for("C14", seed),
                 0 => plan_for("C04", seed),
                 1 => plan_for("C06", seed),
                 2 => plan_for("C03", seed),
